@@ -1,7 +1,8 @@
 // Engine `tmpldata` (C20): the real template.Template.Data and the real webhook
 // notifier (JSON payload incl. max_alerts truncation, posted to a loopback
 // httptest server) on generated batches.  Real time: alerts end an hour ago, in
-// an hour, or never, so their status cannot flip during a case.
+// an hour, or never, so their status cannot flip during a case; an upper-case
+// end token sets the alert's Timeout flag (EndsAt came from resolve_timeout).
 package tmpldata
 
 import (
@@ -61,6 +62,12 @@ func parseAlerts(s string) []*types.Alert {
 			a.EndsAt = now.Add(-time.Hour)
 		case "f":
 			a.EndsAt = now.Add(time.Hour)
+		case "P": // resolved by running into resolve_timeout: the API filled EndsAt in and flagged it
+			a.EndsAt = now.Add(-time.Hour)
+			a.Timeout = true
+		case "F": // posted without endsAt, resolve_timeout not reached yet
+			a.EndsAt = now.Add(time.Hour)
+			a.Timeout = true
 		}
 		out = append(out, a)
 	}
@@ -151,6 +158,10 @@ func genAlerts(r *rand.Rand) string {
 		e := []string{"p", "f", "z"}[r.IntN(3)]
 		if allResolved {
 			e = "p"
+		}
+		// the Timeout flag (EndsAt filled in by the API from resolve_timeout) must not matter: status is EndsAt vs now
+		if e != "z" && r.IntN(3) == 0 {
+			e = strings.ToUpper(e)
 		}
 		out[i] = e + "|" + genPairs(r, false, base) + "|" + genPairs(r, true, abase)
 	}
